@@ -303,13 +303,52 @@ func main() {
 			}
 			return true
 		})
+		// the gate: comparisons of a value that ORIGINATES from entry.Get("c") / entry.Get("msg") (through copies and type
+		// assertions, whatever the variables are called) with a string literal
+		origin := map[string]string{}
+		originOf := func(e ast.Expr) (string, bool) {
+			for {
+				switch t := e.(type) {
+				case *ast.ParenExpr:
+					e = t.X
+					continue
+				case *ast.TypeAssertExpr:
+					e = t.X
+					continue
+				case *ast.Ident:
+					o, ok := origin[t.Name]
+					return o, ok
+				case *ast.CallExpr:
+					if _, key, ok := getLit(t); ok && (key == "c" || key == "msg") {
+						return key, true
+					}
+				}
+				return "", false
+			}
+		}
+		for pass := 0; pass < 3; pass++ {
+			ast.Inspect(fd, func(x ast.Node) bool {
+				if as, ok := x.(*ast.AssignStmt); ok && len(as.Rhs) == 1 && len(as.Lhs) >= 1 {
+					if id, ok := as.Lhs[0].(*ast.Ident); ok && id.Name != "_" {
+						if o, ok := originOf(as.Rhs[0]); ok {
+							origin[id.Name] = o
+						}
+					}
+				}
+				return true
+			})
+		}
 		ast.Inspect(fd, func(x ast.Node) bool {
 			if be, ok := x.(*ast.BinaryExpr); ok && be.Op == token.EQL {
-				if id, ok := be.X.(*ast.Ident); ok {
-					if lit, ok := strLit(be.Y); ok {
-						if id.Name == "c" {
+				a, b := be.X, be.Y
+				if _, isLit := strLit(a); isLit {
+					a, b = b, a
+				}
+				if lit, ok := strLit(b); ok {
+					if o, ok := originOf(a); ok {
+						if o == "c" {
 							facts.GateComponents = append(facts.GateComponents, lit)
-						} else if id.Name == "msg" {
+						} else {
 							facts.GateMessages = append(facts.GateMessages, lit)
 						}
 					}
@@ -321,75 +360,8 @@ func main() {
 		facts.Missing = append(facts.Missing, "func RedactMongoLog")
 	}
 
-	// ---- uses of the private key
-	names := map[string]bool{"privateKey": true, "atlasPrivateKey": true}
-	passThrough := map[string]bool{"c.getAtlasClusterInfo": true, "c.downloadClusterLogsForHost": true, "client.DownloadClusterLogs": true}
-	for _, fn := range []string{"atlas.go", "main.go"} {
-		f := byName[fn]
-		var stack []ast.Node
-		ast.Inspect(f, func(x ast.Node) bool {
-			if x == nil {
-				stack = stack[:len(stack)-1]
-				return true
-			}
-			stack = append(stack, x)
-			id, ok := x.(*ast.Ident)
-			if !ok || !names[id.Name] {
-				return true
-			}
-			kind := "other"
-			if len(stack) >= 2 {
-				switch p := stack[len(stack)-2].(type) {
-				case *ast.Field:
-					kind = "param"
-				case *ast.ValueSpec:
-					kind = "declaration"
-				case *ast.KeyValueExpr:
-					if k, ok := p.Key.(*ast.Ident); ok && k.Name == "Password" && p.Value == x {
-						kind = "digestPassword"
-						// the composite literal must be digest.Transport
-						if len(stack) >= 3 {
-							if cl, ok := stack[len(stack)-3].(*ast.CompositeLit); ok {
-								var sb strings.Builder
-								printer.Fprint(&sb, fset, cl.Type)
-								if sb.String() != "digest.Transport" {
-									kind = "other:composite " + sb.String()
-								}
-							}
-						}
-					}
-				case *ast.AssignStmt:
-					var sb strings.Builder
-					printer.Fprint(&sb, fset, p)
-					t := sb.String()
-					if t == "privateKey := atlasPrivateKey" || t == `privateKey = os.Getenv("ATLAS_PRIVATE_KEY")` {
-						kind = "assign"
-					} else {
-						kind = "other:assign " + t
-					}
-				case *ast.BinaryExpr:
-					if lit, ok := strLit(p.Y); ok && lit == "" && (p.Op == token.EQL || p.Op == token.NEQ) {
-						kind = "emptyTest"
-					}
-				case *ast.CallExpr:
-					nm := callName(p)
-					if passThrough[nm] {
-						kind = "passThrough"
-					} else {
-						kind = "other:call " + nm
-					}
-				case *ast.UnaryExpr:
-					if p.Op == token.AND && len(stack) >= 3 {
-						if c, ok := stack[len(stack)-3].(*ast.CallExpr); ok && strings.HasSuffix(callName(c), ".StringVarP") {
-							kind = "flagBinding"
-						}
-					}
-				}
-			}
-			facts.PrivUses = append(facts.PrivUses, Use{Ident: id.Name, Kind: kind, Pos: pos(id)})
-			return true
-		})
-	}
+	// ---- uses of the private key (taint analysis, see privTaint)
+	privTaint(files, &facts)
 
 	// ---- flags and setters (main.go)
 	mainFile := byName["main.go"]
@@ -717,11 +689,27 @@ type symEnv struct {
 	facts *Facts
 }
 
+// a construct the executor cannot express becomes an "unk" node; it only matters (and is only reported) when it
+// reaches the condition of a reject rule or is a statement that can end the job / change a tracked variable
 func (e *symEnv) unknown(n ast.Node, what string) *BX {
 	var sb strings.Builder
 	printer.Fprint(&sb, fset, n)
-	e.facts.ValidationUnk = append(e.facts.ValidationUnk, what+": "+sb.String()+" @"+pos(n))
-	return &BX{Op: "false"}
+	return &BX{Op: "unk", Name: what + ": " + sb.String() + " @" + pos(n)}
+}
+
+func (e *symEnv) fatal(n ast.Node, what string) {
+	e.facts.ValidationUnk = append(e.facts.ValidationUnk, e.unknown(n, what).Name)
+}
+
+func collectUnk(b *BX, into *[]string) {
+	if b == nil {
+		return
+	}
+	if b.Op == "unk" {
+		*into = append(*into, b.Name)
+	}
+	collectUnk(b.A, into)
+	collectUnk(b.B, into)
 }
 
 func (e *symEnv) isSet(x ast.Expr) *BX {
@@ -732,6 +720,12 @@ func (e *symEnv) isSet(x ast.Expr) *BX {
 		}
 		if a, ok := presenceAtoms[t.Name]; ok {
 			return bAtom(a)
+		}
+		if t.Name == "true" {
+			return &BX{Op: "true"}
+		}
+		if t.Name == "false" {
+			return &BX{Op: "false"}
 		}
 	case *ast.CallExpr:
 		if callName(t) == "os.Getenv" && len(t.Args) == 1 {
@@ -772,24 +766,49 @@ func (e *symEnv) cond(x ast.Expr) *BX {
 			return bAnd(e.cond(t.X), e.cond(t.Y))
 		case token.LOR:
 			return bOr(e.cond(t.X), e.cond(t.Y))
-		case token.NEQ, token.EQL, token.GTR:
-			// X != "" / X != 0 / len(X) > 0 / len(args) == 1 / X == "" / X == 0
-			var base *BX
-			if isZeroLit(t.Y) {
-				base = e.isSet(t.X)
-				if t.Op == token.EQL {
+		case token.NEQ, token.EQL, token.GTR, token.GEQ, token.LSS, token.LEQ:
+			X, Y, op := t.X, t.Y, t.Op
+			if isZeroLit(X) || isOneLit(X) {
+				// literal on the left: mirror
+				X, Y = Y, X
+				switch op {
+				case token.GTR:
+					op = token.LSS
+				case token.LSS:
+					op = token.GTR
+				case token.GEQ:
+					op = token.LEQ
+				case token.LEQ:
+					op = token.GEQ
+				}
+			}
+			if isZeroLit(Y) {
+				// X != "" / X != 0 / len(X) > 0  (set);  X == "" / X == 0 / len(X) <= 0  (not set); the flag values are non-negative counts / strings
+				base := e.isSet(X)
+				switch op {
+				case token.NEQ, token.GTR:
+					return base
+				case token.EQL, token.LEQ:
 					return bNot(base)
 				}
-				return base
 			}
-			if bl, ok := t.Y.(*ast.BasicLit); ok && bl.Kind == token.INT && bl.Value == "1" && t.Op == token.EQL {
-				if c, ok := t.X.(*ast.CallExpr); ok {
-					if id, ok := c.Fun.(*ast.Ident); ok && id.Name == "len" && len(c.Args) == 1 {
-						if a, ok := c.Args[0].(*ast.Ident); ok && a.Name == "args" {
-							return bAtom("file")
-						}
-					}
+			if isOneLit(Y) && isLenArgs(X) {
+				// cobra admits at most one positional argument: len(args) is 0 or 1
+				switch op {
+				case token.EQL, token.GEQ:
+					return bAtom("file")
+				case token.LSS, token.NEQ:
+					return bNot(bAtom("file"))
 				}
+			}
+			if (op == token.NEQ || op == token.EQL) && !isLit(X) && !isLit(Y) {
+				// comparison of two truth values: exclusive or / equivalence
+				a, b := e.cond(X), e.cond(Y)
+				xor := bOr(bAnd(a, bNot(b)), bAnd(bNot(a), b))
+				if op == token.NEQ {
+					return xor
+				}
+				return bNot(xor)
 			}
 		}
 	case *ast.Ident:
@@ -802,6 +821,62 @@ func (e *symEnv) cond(x ast.Expr) *BX {
 		return e.isSet(t)
 	}
 	return e.unknown(x, "condition")
+}
+
+func isOneLit(x ast.Expr) bool {
+	bl, ok := x.(*ast.BasicLit)
+	return ok && bl.Kind == token.INT && bl.Value == "1"
+}
+
+func isLit(x ast.Expr) bool {
+	_, ok := x.(*ast.BasicLit)
+	return ok
+}
+
+func isLenArgs(x ast.Expr) bool {
+	if c, ok := x.(*ast.CallExpr); ok {
+		if id, ok := c.Fun.(*ast.Ident); ok && id.Name == "len" && len(c.Args) == 1 {
+			if a, ok := c.Args[0].(*ast.Ident); ok && a.Name == "args" {
+				return true
+			}
+		}
+	}
+	return false
+}
+
+// does the statement (deeply) end the job or write a variable the chain tracks?
+func (e *symEnv) touches(n ast.Node) bool {
+	hit := false
+	ast.Inspect(n, func(x ast.Node) bool {
+		switch t := x.(type) {
+		case *ast.CallExpr:
+			nm := callName(t)
+			if nm == "os.Exit" || nm == "log.Fatal" || nm == "log.Fatalf" || nm == "panic" || strings.HasPrefix(nm, "Set") {
+				hit = true
+			}
+		case *ast.ReturnStmt:
+			hit = true
+		case *ast.AssignStmt:
+			for _, l := range t.Lhs {
+				if id, ok := l.(*ast.Ident); ok {
+					if _, tr := presenceAtoms[id.Name]; tr && id.Name != "args" {
+						hit = true
+					}
+					if _, tr := e.set[id.Name]; tr {
+						hit = true
+					}
+				}
+			}
+		case *ast.IncDecStmt:
+			if id, ok := t.X.(*ast.Ident); ok {
+				if _, tr := presenceAtoms[id.Name]; tr {
+					hit = true
+				}
+			}
+		}
+		return true
+	})
+	return hit
 }
 
 func containsExit(stmts []ast.Stmt) bool {
@@ -827,11 +902,20 @@ func (e *symEnv) exec(stmts []ast.Stmt, pc *BX) bool {
 				}
 				if nm == "os.Exit" {
 					e.facts.Validation = append(e.facts.Validation, RejectRule{Cond: pc, Pos: pos(c)})
+					if len(c.Args) != 1 || !isOneLit(c.Args[0]) {
+						e.fatal(c, "exit status other than the literal 1")
+					}
+				} else if nm == "log.Fatal" || nm == "log.Fatalf" || nm == "log.Fatalln" {
+					e.facts.Validation = append(e.facts.Validation, RejectRule{Cond: pc, Pos: pos(c)})
+				} else if nm == "panic" {
+					e.fatal(c, "panic inside the validation chain")
 				}
 			}
 		case *ast.IfStmt:
 			if s.Init != nil {
-				e.unknown(s, "if with init statement")
+				if !e.exec([]ast.Stmt{s.Init}, pc) {
+					return false
+				}
 			}
 			c := e.cond(s.Cond)
 			if !e.exec(s.Body.List, bAnd(pc, c)) {
@@ -847,42 +931,118 @@ func (e *symEnv) exec(stmts []ast.Stmt, pc *BX) bool {
 					return false
 				}
 			}
-		case *ast.AssignStmt:
-			// tracked: x := y / x = y / x = os.Getenv(..) / b := <bool expr>; everything else is ignored unless it writes a tracked name
-			if len(s.Lhs) == 1 && len(s.Rhs) == 1 {
-				if id, ok := s.Lhs[0].(*ast.Ident); ok {
-					switch id.Name {
-					case "publicKey", "privateKey":
-						old, had := e.set[id.Name]
-						nv := e.isSet(s.Rhs[0])
-						if had && pc.Op != "true" {
-							nv = bIte(pc, nv, old)
-						}
-						e.set[id.Name] = nv
-					case "atlasParamsSet":
-						e.set[id.Name] = e.cond(s.Rhs[0])
-					case "inputFile", "useStdin", "stdinHasData":
-					default:
-						if _, tracked := presenceAtoms[id.Name]; tracked {
-							e.unknown(s, "assignment to a flag variable inside the validation chain")
-						}
+		case *ast.SwitchStmt:
+			// `switch { case c1: … case c2: … default: … }` and `switch b { case true: … case false: … }`: an if / else-if chain
+			if s.Init != nil {
+				if !e.exec([]ast.Stmt{s.Init}, pc) {
+					return false
+				}
+			}
+			var tag *BX
+			if s.Tag != nil {
+				tag = e.cond(s.Tag)
+			}
+			none := &BX{Op: "true"} // no earlier case matched
+			var deflt *ast.CaseClause
+			for _, cs := range s.Body.List {
+				cc := cs.(*ast.CaseClause)
+				if cc.List == nil {
+					deflt = cc
+					continue
+				}
+				var m *BX = &BX{Op: "false"}
+				for _, x := range cc.List {
+					c := e.cond(x)
+					if tag != nil {
+						c = bNot(bOr(bAnd(tag, bNot(c)), bAnd(bNot(tag), c)))
 					}
+					m = bOr(m, c)
+				}
+				for _, b := range cc.Body {
+					if br, ok := b.(*ast.BranchStmt); ok && br.Tok == token.FALLTHROUGH {
+						e.fatal(s, "fallthrough in the validation chain")
+					}
+				}
+				if !e.exec(cc.Body, bAnd(pc, bAnd(none, m))) {
+					return false
+				}
+				none = bAnd(none, bNot(m))
+			}
+			if deflt != nil {
+				if !e.exec(deflt.Body, bAnd(pc, none)) {
+					return false
+				}
+			}
+		case *ast.BlockStmt:
+			if !e.exec(s.List, pc) {
+				return false
+			}
+		case *ast.AssignStmt:
+			// tracked: x := y / x = y / x = os.Getenv(..) / b := <bool expr>; a variable the executor cannot evaluate becomes an
+			// "unk" node, reported only if it reaches a reject condition
+			if len(s.Lhs) == len(s.Rhs) {
+				for k := range s.Lhs {
+					id, ok := s.Lhs[k].(*ast.Ident)
+					if !ok || id.Name == "_" {
+						continue
+					}
+					if _, tracked := presenceAtoms[id.Name]; tracked {
+						if id.Name != "stdinHasData" {
+							e.fatal(s, "assignment to a flag variable inside the validation chain")
+						}
+						continue
+					}
+					var nv *BX
+					switch r := s.Rhs[k].(type) {
+					case *ast.Ident, *ast.CallExpr:
+						nv = e.isSet(r)
+					default:
+						nv = e.cond(r)
+					}
+					old, had := e.set[id.Name]
+					if had && s.Tok != token.DEFINE && pc.Op != "true" {
+						nv = bIte(pc, nv, old)
+					}
+					e.set[id.Name] = nv
 				}
 			} else {
 				for _, l := range s.Lhs {
 					if id, ok := l.(*ast.Ident); ok {
-						if _, tracked := presenceAtoms[id.Name]; tracked && id.Name != "args" {
-							e.unknown(s, "assignment to a flag variable inside the validation chain")
+						if _, tracked := presenceAtoms[id.Name]; tracked && id.Name != "args" && id.Name != "stdinHasData" {
+							e.fatal(s, "assignment to a flag variable inside the validation chain")
+						}
+						if _, had := e.set[id.Name]; had {
+							e.set[id.Name] = e.unknown(s, "value")
 						}
 					}
 				}
 			}
 		case *ast.DeclStmt:
+			if gd, ok := s.Decl.(*ast.GenDecl); ok {
+				for _, sp := range gd.Specs {
+					if vs, ok := sp.(*ast.ValueSpec); ok {
+						for k, n := range vs.Names {
+							if k < len(vs.Values) {
+								switch r := vs.Values[k].(type) {
+								case *ast.Ident, *ast.CallExpr:
+									e.set[n.Name] = e.isSet(r)
+								default:
+									e.set[n.Name] = e.cond(r)
+								}
+							} else {
+								e.set[n.Name] = &BX{Op: "false"} // zero value: "" / 0 / false
+							}
+						}
+					}
+				}
+			}
 		case *ast.ReturnStmt:
 			e.facts.Validation = append(e.facts.Validation, RejectRule{Cond: pc, Pos: pos(s)})
-			e.unknown(s, "return inside the validation chain (a job left without exit status 1)")
+			e.fatal(s, "return inside the validation chain (a job left without exit status 1)")
 		default:
-			e.unknown(st, "statement")
+			if e.touches(st) {
+				e.fatal(st, "statement")
+			}
 		}
 	}
 	return true
@@ -892,6 +1052,9 @@ func validationChain(runLit *ast.FuncLit, facts *Facts) {
 	e := &symEnv{set: map[string]*BX{}, facts: facts}
 	// path conditions inside exec are RELATIVE to the enclosing ifs; assignments under a condition use ite with it.
 	e.exec(runLit.Body.List, &BX{Op: "true"})
+	for _, r := range facts.Validation {
+		collectUnk(r.Cond, &facts.ValidationUnk)
+	}
 	if len(facts.Validation) == 0 {
 		facts.Missing = append(facts.Missing, "validation chain of the redact Run closure")
 	}
@@ -926,7 +1089,7 @@ func atlasLiterals(files []*ast.File, facts *Facts) {
 				}
 				switch {
 				case nm == "fmt.Sprintf" && len(c.Args) > 0:
-					if lit, ok := strLit(c.Args[0]); ok && (strings.Contains(lit, "/api/atlas") || strings.Contains(lit, ".log.gz") || lit == "%s.%d") {
+					if lit, ok := strLit(c.Args[0]); ok && strings.Contains(lit, "/api/atlas") {
 						facts.AtlasLits = append(facts.AtlasLits, AtlasLit{Kind: "sprintf", Func: fd.Name.Name, Text: lit})
 					}
 				case strings.HasSuffix(nm, "Header.Set") || strings.HasSuffix(nm, "Header.Add"):
@@ -947,5 +1110,240 @@ func atlasLiterals(files []*ast.File, facts *Facts) {
 				return true
 			})
 		}
+	}
+}
+
+
+// ---------------------------------------------------------------------------------------------
+// Every use of the Atlas private key, by data flow rather than by name.  Sources: the flag variable
+// atlasPrivateKey and os.Getenv("ATLAS_PRIVATE_KEY").  A variable becomes tainted when a tainted
+// expression is copied into it; a parameter of a function of this package becomes tainted when a
+// tainted variable is passed in that position.  Each occurrence of a tainted identifier is then
+// classified by what is done with it; anything that is not one of the harmless kinds is "other:…".
+func isPrivSource(e ast.Expr) bool {
+	if c, ok := e.(*ast.CallExpr); ok && callName(c) == "os.Getenv" && len(c.Args) == 1 {
+		if lit, ok := strLit(c.Args[0]); ok && lit == "ATLAS_PRIVATE_KEY" {
+			return true
+		}
+	}
+	return false
+}
+
+func privTaint(files []*ast.File, facts *Facts) {
+	type fn struct {
+		name   string
+		params []string
+		body   *ast.BlockStmt
+		decl   ast.Node
+	}
+	var fns []*fn
+	byFn := map[string]*fn{}
+	for _, f := range files {
+		for _, d := range f.Decls {
+			if fd, ok := d.(*ast.FuncDecl); ok && fd.Body != nil {
+				x := &fn{name: fd.Name.Name, body: fd.Body, decl: fd}
+				for _, fl := range fd.Type.Params.List {
+					for _, n := range fl.Names {
+						x.params = append(x.params, n.Name)
+					}
+					if len(fl.Names) == 0 {
+						x.params = append(x.params, "_")
+					}
+				}
+				fns = append(fns, x)
+				byFn[x.name] = x
+			}
+		}
+	}
+	localCallee := func(c *ast.CallExpr) *fn {
+		switch t := c.Fun.(type) {
+		case *ast.Ident:
+			return byFn[t.Name]
+		case *ast.SelectorExpr:
+			if x, ok := byFn[t.Sel.Name]; ok {
+				// a method of this package (not pkg.Func of an imported package with the same name)
+				if id, ok := t.X.(*ast.Ident); ok && (id.Name == "os" || id.Name == "fmt" || id.Name == "strings" || id.Name == "http" || id.Name == "log") {
+					return nil
+				}
+				return x
+			}
+		}
+		return nil
+	}
+	tainted := map[string]map[string]bool{} // function -> variable names
+	for _, x := range fns {
+		tainted[x.name] = map[string]bool{"atlasPrivateKey": true}
+	}
+	isT := func(fnm string, e ast.Expr) bool {
+		for {
+			if p, ok := e.(*ast.ParenExpr); ok {
+				e = p.X
+				continue
+			}
+			break
+		}
+		if id, ok := e.(*ast.Ident); ok {
+			return tainted[fnm][id.Name]
+		}
+		return isPrivSource(e)
+	}
+	for changed := true; changed; {
+		changed = false
+		for _, x := range fns {
+			ast.Inspect(x.body, func(n ast.Node) bool {
+				switch t := n.(type) {
+				case *ast.AssignStmt:
+					if len(t.Lhs) == len(t.Rhs) {
+						for k := range t.Rhs {
+							if isT(x.name, t.Rhs[k]) {
+								if id, ok := t.Lhs[k].(*ast.Ident); ok && id.Name != "_" && !tainted[x.name][id.Name] {
+									tainted[x.name][id.Name] = true
+									changed = true
+								}
+							}
+						}
+					}
+				case *ast.ValueSpec:
+					if len(t.Names) == len(t.Values) {
+						for k := range t.Values {
+							if isT(x.name, t.Values[k]) && !tainted[x.name][t.Names[k].Name] {
+								tainted[x.name][t.Names[k].Name] = true
+								changed = true
+							}
+						}
+					}
+				case *ast.CallExpr:
+					if cal := localCallee(t); cal != nil {
+						for k, a := range t.Args {
+							if isT(x.name, a) && k < len(cal.params) && !tainted[cal.name][cal.params[k]] {
+								tainted[cal.name][cal.params[k]] = true
+								changed = true
+							}
+						}
+					}
+				}
+				return true
+			})
+		}
+	}
+	// classification of every occurrence
+	classify := func(fnm string, root ast.Node) {
+		var stack []ast.Node
+		ast.Inspect(root, func(x ast.Node) bool {
+			if x == nil {
+				stack = stack[:len(stack)-1]
+				return true
+			}
+			stack = append(stack, x)
+			var kind string
+			if c, ok := x.(*ast.CallExpr); ok && isPrivSource(c) {
+				// the environment fallback: must be copied into a variable directly
+				kind = "other:env value used in place"
+				if len(stack) >= 2 {
+					if as, ok := stack[len(stack)-2].(*ast.AssignStmt); ok && len(as.Lhs) == len(as.Rhs) {
+						for k := range as.Rhs {
+							if as.Rhs[k] == x {
+								if _, ok := as.Lhs[k].(*ast.Ident); ok {
+									kind = "assign"
+								}
+							}
+						}
+					}
+					if vs, ok := stack[len(stack)-2].(*ast.ValueSpec); ok && len(vs.Names) == len(vs.Values) {
+						kind = "assign"
+					}
+				}
+				facts.PrivUses = append(facts.PrivUses, Use{Ident: "os.Getenv", Kind: kind, Pos: pos(c)})
+				return true
+			}
+			id, ok := x.(*ast.Ident)
+			if !ok || !tainted[fnm][id.Name] {
+				return true
+			}
+			kind = "other"
+			if len(stack) >= 2 {
+				switch p := stack[len(stack)-2].(type) {
+				case *ast.Field:
+					kind = "param"
+				case *ast.ValueSpec:
+					kind = "declaration"
+				case *ast.SelectorExpr:
+					if p.Sel == id {
+						return true // a field or method that happens to carry the same name: not this variable
+					}
+					kind = "other:selector"
+				case *ast.KeyValueExpr:
+					if p.Key == x {
+						return true // a struct field name
+					}
+					if k, ok := p.Key.(*ast.Ident); ok && k.Name == "Password" && p.Value == x {
+						kind = "digestPassword"
+						if len(stack) >= 3 {
+							if cl, ok := stack[len(stack)-3].(*ast.CompositeLit); ok {
+								var sb strings.Builder
+								printer.Fprint(&sb, fset, cl.Type)
+								if sb.String() != "digest.Transport" {
+									kind = "other:composite " + sb.String()
+								}
+							}
+						}
+					} else {
+						kind = "other:composite field"
+					}
+				case *ast.AssignStmt:
+					// a copy between plain variables (either side), nothing else
+					kind = "other:assign"
+					if len(p.Lhs) == len(p.Rhs) {
+						for k := range p.Rhs {
+							if p.Lhs[k] == x {
+								if isT(fnm, p.Rhs[k]) {
+									kind = "assign"
+								} else {
+									kind = "other:overwritten"
+								}
+							}
+							if p.Rhs[k] == x {
+								if _, ok := p.Lhs[k].(*ast.Ident); ok {
+									kind = "assign"
+								} else {
+									var sb strings.Builder
+									printer.Fprint(&sb, fset, p.Lhs[k])
+									kind = "other:stored into " + sb.String()
+								}
+							}
+						}
+					}
+				case *ast.BinaryExpr:
+					if lit, ok := strLit(p.Y); ok && lit == "" && (p.Op == token.EQL || p.Op == token.NEQ) {
+						kind = "emptyTest"
+					} else if lit, ok := strLit(p.X); ok && lit == "" && (p.Op == token.EQL || p.Op == token.NEQ) {
+						kind = "emptyTest"
+					} else {
+						kind = "other:operator " + p.Op.String()
+					}
+				case *ast.CallExpr:
+					if cal := localCallee(p); cal != nil {
+						kind = "passThrough"
+					} else if fid, ok := p.Fun.(*ast.Ident); ok && fid.Name == "len" {
+						kind = "emptyTest"
+					} else {
+						kind = "other:call " + callName(p)
+					}
+				case *ast.UnaryExpr:
+					if p.Op == token.AND && len(stack) >= 3 {
+						if c, ok := stack[len(stack)-3].(*ast.CallExpr); ok && strings.HasSuffix(callName(c), ".StringVarP") {
+							kind = "flagBinding"
+						}
+					}
+				case *ast.ReturnStmt:
+					kind = "other:returned"
+				}
+			}
+			facts.PrivUses = append(facts.PrivUses, Use{Ident: id.Name, Kind: kind, Pos: pos(id)})
+			return true
+		})
+	}
+	for _, x := range fns {
+		classify(x.name, x.decl)
 	}
 }
